@@ -7,14 +7,16 @@ namespace EOQ
 
 /-! ### a closed path changes a Boolean attribute an even number of times -/
 
+set_option linter.unusedSimpArgs false in
 theorem pairs_parity {α : Type} (f : α → Bool) (l : List α) (v w : α) :
     ((EO.pairs (v :: l) w).countP (fun e => f e.1 != f e.2)) % 2 = (if (f v != f w) = true then 1 else 0) := by
   induction l generalizing v with
   | nil => simp only [EO.pairs, List.countP_cons, List.countP_nil]; split <;> simp_all
   | cons a t ih =>
+    have h := ih a
     simp only [EO.pairs, List.countP_cons]
-    have := ih a
-    cases hv : f v <;> cases ha : f a <;> cases hw : f w <;> simp_all <;> omega
+    generalize List.countP (fun e => f e.1 != f e.2) (EO.pairs (a :: t) w) = n at h ⊢
+    cases hv : f v <;> cases ha : f a <;> cases hw : f w <;> simp [hv, ha, hw] at h ⊢ <;> omega
 
 theorem edgesOf_parity {α : Type} (f : α → Bool) (c : List α) :
     ((EO.edgesOf c).countP (fun e => f e.1 != f e.2)) % 2 = 0 := by
@@ -108,7 +110,7 @@ theorem outside_not_inside (N : ℚ) (P : QPolygon) (hP : InSquareRect N P) (p :
   rcases hout with hx | hx | hy | hy
   · -- left of the square: every straddling edge is crossed; a closed contour straddles the line evenly often
     have : (EO.allEdges P).countP (fun e => decide (crosses e.1 e.2 p)) =
-        (EO.allEdges P).countP (fun e => (fun v : QPt => decide (v.y ≤ p.y)) e.1 != (fun v : QPt => decide (v.y ≤ p.y)) e.2) := by
+        (EO.allEdges P).countP (fun e => decide (e.1.y ≤ p.y) != decide (e.2.y ≤ p.y)) := by
       apply List.countP_congr
       intro e he
       obtain ⟨hr, h1, _, _, _, _, _⟩ := hP e he
@@ -117,7 +119,10 @@ theorem outside_not_inside (N : ℚ) (P : QPolygon) (hP : InSquareRect N P) (p :
       constructor
       · rintro ⟨a, b, c, _⟩; exact ⟨a, b, c⟩
       · rintro ⟨a, b, c⟩; exact ⟨a, b, c, hlt⟩
-    rw [this, allEdges_parity]; simp
+    rw [this]
+    have h2 : (EO.allEdges P).countP (fun e => decide (e.1.y ≤ p.y) != decide (e.2.y ≤ p.y)) % 2 = 0 :=
+      allEdges_parity (fun v : QPt => decide (v.y ≤ p.y)) P
+    omega
   · rw [zero_of]; · simp
     intro e he
     obtain ⟨hr, _, h2, _, _, _, _⟩ := hP e he
